@@ -40,15 +40,15 @@ def build_u(tree, spelling=0):
         return tree[1]
     if k == 'dk':
         d = {tree[1]: build_u(tree[2], spelling)}
-        return frozendict(d) if spelling else d
+        return frozendict(d) if spelling in (1, 2) else d
     if k == 's':
         return tree[1]
     if k == 'l':
         items = [build_u(t, spelling) for t in tree[1]]
-        return tuple(items) if spelling else items
+        return tuple(items) if spelling in (1, 3) else items
     if k == 'd':
         d = {kk: build_u(t, spelling) for kk, t in tree[1]}
-        return frozendict(d) if spelling else d
+        return frozendict(d) if spelling in (1, 2) else d
     if k == 't':
         return TYPES[tree[1]](build_u(tree[2], spelling))
     raise ValueError(k)
@@ -114,6 +114,21 @@ def check_supported(args):
     except BaseException as e:  # noqa
         bad('supported-rejected', f'construction raised {type(e).__name__}: {e}')
         return out
+    for sp in (2, 3):
+        # mixed spellings: mutable lists inside frozendicts, dicts inside tuples
+        try:
+            tm = TYPES[tn](p=build_u(tree, sp))
+        except BaseException as e:  # noqa
+            bad('supported-rejected', f'mixed spelling {sp}: construction raised {type(e).__name__}: {e}')
+            continue
+        for path, c in walk_collections(tm.p):
+            if not isinstance(c, (tuple, frozendict)):
+                bad('not-normalised', f'mixed spelling {sp}: {path} is a {type(c).__name__}')
+        try:
+            if not (tm == t) or hash(tm) != hash(t):
+                bad('spelling-unequal', f'mixed spelling {sp} is not equal (with equal hash) to the list/dict spelling')
+        except BaseException as e:  # noqa
+            bad('unhashable', f'mixed spelling {sp}: {type(e).__name__}: {e}')
     for path, c in walk_collections(t.p):
         if not isinstance(c, (tuple, frozendict)):
             bad('not-normalised', f'{path} is a {type(c).__name__}')
@@ -189,13 +204,17 @@ def check_supported(args):
 
 def check_unsupported(args):
     tn, name, tree = args
-    try:
-        t = TYPES[tn](p=build_u(tree, 0))
-    except TaskError:
-        return []
-    except BaseException as e:  # noqa
-        return [(f'unsupported-wrong-exception:{name}', f'{tn}(p={describe_u(tree)}): raised {type(e).__name__}: {e}', tree_size_u(tree))]
-    return [(f'unsupported-accepted:{name}', f'{tn}(p={describe_u(tree)}) was accepted', tree_size_u(tree))]
+    out = []
+    for sp in (0, 1, 2):     # the unsupported value may sit inside a dict, a frozendict, a list or a tuple
+        try:
+            t = TYPES[tn](p=build_u(tree, sp))
+        except TaskError:
+            continue
+        except BaseException as e:  # noqa
+            out.append((f'unsupported-wrong-exception:{name}', f'{tn}(p={describe_u(tree)}) [spelling {sp}]: raised {type(e).__name__}: {e}', tree_size_u(tree)))
+            continue
+        out.append((f'unsupported-accepted:{name}', f'{tn}(p={describe_u(tree)}) [spelling {sp}] was accepted', tree_size_u(tree)))
+    return out
 
 
 def describe_u(tree):
@@ -224,6 +243,45 @@ def tree_size_u(tree):
     if k == 'd':
         return 1 + sum(tree_size_u(t) for _, t in tree[1])
     return 1 + tree_size_u(tree[2])
+
+
+def cross_items(tier):
+    ts = trees(1, FULL, width=1, task_types=('Leaf', 'PFoo'), inner_leaves=FULL)
+    if tier != 'quick':
+        ts += trees(2, TINY, width=2, task_types=('Leaf', 'PFoo'), inner_leaves=TINY)
+    return [(tn, t) for t in ts for tn in ('Foo', 'PFoo')]
+
+
+def cross_dump(tier: str, path: str):
+    """Fresh interpreter A: build, hash (as Lab.run_tasks does) and pickle the tasks."""
+    silence_labtech()
+    blobs = []
+    for tn, tree in cross_items(tier):
+        t = TYPES[tn](p=build_u(tree, 0))
+        hash(t)
+        {t: 1}
+        blobs.append(pickle.dumps(t))
+    with open(path, 'wb') as f:
+        pickle.dump(blobs, f)
+
+
+def cross_check(tier: str, path: str):
+    """Fresh interpreter B (other hash seed): copies must equal freshly built tasks, same hash."""
+    silence_labtech()
+    with open(path, 'rb') as f:
+        blobs = pickle.load(f)
+    out = []
+    for (tn, tree), blob in zip(cross_items(tier), blobs):
+        fresh = TYPES[tn](p=build_u(tree, 0))
+        c = pickle.loads(blob)
+        d = f'{tn}(p={describe(tree)})'
+        if not (c == fresh):
+            out.append(['copy-unequal-across-interpreters', f'{d}: copy from another interpreter != freshly built task'])
+        elif hash(c) != hash(fresh) or fresh not in {c} or c not in {fresh: 1}:
+            out.append(['copy-hash-differs-across-interpreters', f'{d}: copy unpickled in an interpreter with another hash seed hashes differently from an equal fresh task'])
+        if c.cache_key != fresh.cache_key:
+            out.append(['copy-key', f'{d}: cache_key differs across interpreters'])
+    print(json.dumps(out))
 
 
 def _work(item):
@@ -267,8 +325,31 @@ def run(tier: str, seed: int) -> Result:
     for kind, n, res in pmap(_work, work):
         for key, msg, size in res:
             viols.append(Violation('C15', key, msg, {'tier': tier, 'clause': key, 'msg': msg}, size=size))
+    # cross-interpreter slice: pickled in a fresh interpreter under one hash seed, loaded under another
+    import os, subprocess, sys, tempfile, shutil
+    tmpd = tempfile.mkdtemp(prefix='c15x_')
+    n_cross = 0
+    try:
+        for sa, sb in (((1, 2),) if tier == 'quick' else ((1, 2), (2, 3), (3, 0))):
+            pth = os.path.join(tmpd, f'b{sa}.pkl')
+            pa = subprocess.run([sys.executable, '-m', 'verif_lt.props.c15', '--dump', tier, pth], env=dict(os.environ, PYTHONHASHSEED=str(sa)),
+                                capture_output=True, text=True)
+            if pa.returncode != 0:
+                viols.append(Violation('C15', 'pickle-raised', f'pickling in a fresh interpreter failed: {pa.stderr[-400:]}', {'tier': tier, 'clause': 'pickle-raised'}, size=1))
+                continue
+            pb = subprocess.run([sys.executable, '-m', 'verif_lt.props.c15', '--check', tier, pth], env=dict(os.environ, PYTHONHASHSEED=str(sb)),
+                                capture_output=True, text=True)
+            if pb.returncode != 0:
+                viols.append(Violation('C15', 'pickle-raised', f'unpickling in a fresh interpreter failed: {pb.stderr[-400:]}', {'tier': tier, 'clause': 'pickle-raised'}, size=1))
+                continue
+            n_cross += len(cross_items(tier))
+            for key, msg in json.loads(pb.stdout.strip().splitlines()[-1]):
+                viols.append(Violation('C15', key, f'[seeds {sa}->{sb}] {msg}', {'tier': tier, 'clause': key, 'msg': msg}, size=len(msg)))
+    finally:
+        shutil.rmtree(tmpd, ignore_errors=True)
     cov = {
-        'evaluations': len(sup_items) * (len(protos) + 1) + len(unsup_items),
+        'cross_interpreter_copies': n_cross,
+        'evaluations': len(sup_items) * (len(protos) + 1) + len(unsup_items) * 3 + n_cross,
         'distinct_nontrivial': len(sup_items) + len(unsup_items),
         'rule': (f'supported: every parameter tree to depth 2 (thorough: + depth 3 over a 3-value alphabet) x outer types, pickle protocols {protos}; '
                  'unsupported: every supported tree of depth <=2 with one position replaced by object/set/bytes/complex/frozenset or wrapped in a dict '
@@ -291,3 +372,11 @@ def replay(payload) -> int:
     keys = sorted({v.key for v in r.violations})
     print('violation keys now:', keys)
     return 1 if payload.get('clause') in keys else 0
+
+
+if __name__ == '__main__':
+    import sys
+    if len(sys.argv) >= 4 and sys.argv[1] == '--dump':
+        cross_dump(sys.argv[2], sys.argv[3])
+    elif len(sys.argv) >= 4 and sys.argv[1] == '--check':
+        cross_check(sys.argv[2], sys.argv[3])
